@@ -247,6 +247,7 @@ type run struct {
 	flats        map[uint32]*flatState
 	soft         *sim.Violation // recorded-finding class seen in this run (reported only if nothing else fails)
 	c06Delivered bool
+	resetVictim  *transaction.Transaction
 	c06Victim    *transaction.Transaction
 	// height of the last block in which the producer executed a locally built oracle response whose Result is nil
 	oraNilResultAt uint32
